@@ -32,9 +32,9 @@ type matcher struct {
 }
 
 type handler struct {
-	kind    byte // 'p' pass 'r' respond 'w' rewrite 'f' fail 's' subroute
+	kind    byte // 'p' pass 'r' respond 'w' rewrite 'f' fail 's' subroute; 'x' real error handler, 'y' real static_response
 	id      int
-	arg     int // status or path index
+	arg     int // status or path index; x/y: status source (0 none, 1 "{http.error.status_code}", 2 not a number, else the number)
 	routes  []*route
 	hasErrs bool
 	errs    []*route
@@ -153,6 +153,10 @@ func (p *parser) handler() *handler {
 		return &handler{kind: 'w', id: p.nat(), arg: p.nat()}
 	case "f":
 		return &handler{kind: 'f', id: p.nat(), arg: p.nat()}
+	case "x":
+		return &handler{kind: 'x', arg: p.nat()}
+	case "y":
+		return &handler{kind: 'y', arg: p.nat()}
 	case "s":
 		h := &handler{kind: 's', routes: p.routes()}
 		switch p.nat() {
@@ -290,6 +294,14 @@ func routesValid(rs []*route) bool {
 				if !errStatusOK(h.arg) {
 					return false
 				}
+			case 'x':
+				if h.arg > 2 && (h.arg < 400 || h.arg > 599) {
+					return false
+				}
+			case 'y':
+				if h.arg > 2 && (h.arg < 200 || h.arg > 599) {
+					return false
+				}
 			case 's':
 				if !routesValid(h.routes) || !routesValid(h.errs) {
 					return false
@@ -350,6 +362,8 @@ func (e *enc) routes(rs []*route) {
 				e.n(h.id)
 			case 'r', 'w', 'f':
 				e.n(h.id)
+				e.n(h.arg)
+			case 'x', 'y':
 				e.n(h.arg)
 			case 's':
 				e.routes(h.routes)
